@@ -103,4 +103,78 @@ def run(ck):
                                          "%s: %s is limited by %s but the buffer was allocated with %s" % (fn.name, f, E.key(a[idx])[:50], ak[:50]))
     ck.need(n_arr >= 8, "C09: only %d fixed-array writes found in the anchored files" % n_arr)
     ck.need(n_alloc >= 3, "C09: only %d allocation-paired writes found" % n_alloc)
-    ck.assume("use-after-free, assertion reachability, SBuf/Tokenizer internals (bounds enforced dynamically there) and liveness are not decided")
+    ck.rule("M2 HttpHeader mask coherence (delById() asserts that an id whose mask bit is set has at least one entry): every function that deletes entries with "
+            "HttpHeader::delAt(pos, counter) repairs the mask before it returns -- refreshMask(), CBIT_CLR(mask, id) of the deleted id, or a rebuild started by "
+            "httpHeaderMaskInit(&mask) -- on every path on which a deletion happened (`if (counter) refreshMask()` counts: delAt increments its counter); otherwise a later "
+            "delById() of a header named in a hostile Connection field hits assert(count)")
+    hh = ck.facts(["src/HttpHeader.cc", "src/client_side_reply.cc", "src/HeaderMangling.cc"], whole=False)
+    is_del = lambda ev: ev.get("e") == "call" and E.strip(ev["x"]).get("f") == "HttpHeader::delAt"
+    ndel = 0
+    for f in hh.all_fns():
+        if f.name == "HttpHeader::delAt" or not any(is_del(ev) for b in f.blocks.values() for ev in b["ev"]):
+            continue
+        ndel += 1
+
+        def track(ev, env, fs):
+            if ev.get("e") == "call":
+                x = E.strip(ev["x"])
+                fn_ = x.get("f", "")
+                if fn_ == "HttpHeader::delAt":
+                    env["$dirty"] = 1
+                    c = E.strip(x["a"][1]) if len(x.get("a", [])) > 1 else {}
+                    if c.get("k") == "ref":
+                        env["$cnt:" + c["d"]] = 1
+                elif fn_ in ("HttpHeader::refreshMask", "httpHeaderMaskInit"):
+                    env.pop("$dirty", None)
+                    if fn_ == "httpHeaderMaskInit":
+                        env["$rebuilding"] = 1
+            if ev.get("e") == "asg" and any(n.get("k") == "mem" and n.get("m") == "HttpHeader::mask" for n in E.walk(ev.get("lhs"))) and ev.get("op") in ("&=", "=", "|="):
+                if ev.get("op") == "&=":
+                    env.pop("$dirty", None)          # CBIT_CLR(mask, id)
+
+        def edge(b, lab, imp, env, fs):
+            for t, v in imp:
+                t = E.strip(t)
+                if v is False and t.get("k") == "ref" and env.get("$cnt:" + t.get("d", "")) == 1:
+                    return False                     # the deletion counter is non-zero after a delAt()
+            return True
+        fl = ck.flow(f, on_event=track, on_edge=edge)
+        bad = [st for st in fl.find(lambda ev: ev.get("e") == "exit" and ev.get("kind") in ("ret", "fall")) if st.env.get("$dirty") == 1 and st.env.get("$rebuilding") != 1]
+        if not bad:
+            ck.ok("M2.mask-repaired-after-delete", f.where(), "%s: every path that deleted an entry repairs the mask" % f.name)
+        else:
+            ck.violation("M2.mask-repaired-after-delete", "M2|%s|delAt-without-mask-repair" % f.name, bad[0].where(),
+                         "%s can return after HttpHeader::delAt() without refreshMask()/CBIT_CLR/mask rebuild: the mask keeps bits of deleted headers and a later "
+                         "delById() asserts" % f.name, fl.witness(bad[0]))
+    ck.need(ndel >= 5, "C09: expected >= 5 functions calling HttpHeader::delAt, found %d" % ndel)
+
+    ck.rule("M3 PRECONDITION ConnStateData::consumeInput(n) asserts n > 0 && n <= inBuf.length(): every caller establishes a positive amount first (inBuf non-empty for "
+            "consumeInput(inBuf.length()), `n > 0` for an accepted-amount local, a successful parse for tok.parsedSize())")
+    cs9 = ck.facts(["src/client_side.cc", "src/servers/FtpServer.cc"], whole=False)
+    ncons = 0
+    for f in cs9.all_fns():
+        fl = None
+        for b in f.blocks.values():
+            for ev in b["ev"]:
+                if ev.get("e") == "call" and E.strip(ev["x"]).get("f") == "ConnStateData::consumeInput":
+                    fl = fl or ck.flow(f)
+                    for st in fl.find(lambda e, ev=ev: e is ev):
+                        ncons += 1
+                        a0 = E.strip(E.strip(ev["x"])["a"][0])
+                        if a0.get("k") == "call" and a0.get("f") == "SBuf::length":
+                            okk = st.has(E.M(lambda t, o=a0.get("o"): E.strip(t).get("k") == "call" and E.strip(t).get("f") == "SBuf::isEmpty" and E.key(E.strip(t).get("o")) == E.key(o), "isEmpty()"), False)
+                            how = "buffer established non-empty"
+                        elif a0.get("k") == "ref":
+                            okk = st.has(E.m_cmp("<", E.m_const(0), E.m_is_ref(a0["d"])), True) or st.has(E.m_is_ref(a0["d"]), True)
+                            how = "%s > 0 established" % a0["d"]
+                        else:
+                            okk = any(f_[0] in ("A", "H") and f_[2] is True and ("parse" in f_[1].lower()) for f_ in st.facts)
+                            how = "a successful parse precedes"
+                        if okk:
+                            ck.ok("M3.consume-positive", st.where(), "%s: consumeInput(%s): %s" % (f.name, E.key(a0)[:40], how))
+                        else:
+                            ck.violation("M3.consume-positive", "M3|%s|consumeInput-may-be-zero" % f.name, st.where(),
+                                         "%s calls consumeInput(%s) without establishing that the amount is positive: consumeInput() asserts byteCount > 0 (an adversarial "
+                                         "peer can make the buffer empty here)" % (f.name, E.key(a0)[:60]), fl.witness(st))
+    ck.need(ncons >= 3, "C09: expected >= 3 consumeInput() call sites, found %d" % ncons)
+    ck.assume("use-after-free, assertion reachability beyond the two precondition clauses M2/M3, SBuf/Tokenizer internals (bounds enforced dynamically there) and liveness are not decided")
